@@ -140,6 +140,7 @@ inductive ROpTok where
   | register (n d : Bytes) | listen | open_ | close | shutdown
   | rebind                         -- a second Bind while serving (refused): no effect on the state
   | openfailed                     -- a client could not connect although the history has the service serving
+  | rebindaccepted                 -- a second Bind while serving was NOT refused
   | info | desc (n : Bytes)       -- queries in the middle of a history: no effect on the state
 
 def regOpP : P ROpTok := do
@@ -152,6 +153,7 @@ def regOpP : P ROpTok := do
   | "shutdown" => pure .shutdown
   | "rebind" => pure .rebind
   | "openfailed" => pure .openfailed
+  | "rebindaccepted" => pure .rebindaccepted
   | "info" => pure .info
   | "desc" => do let n ← bytes; pure (.desc n)
   | _ => throw s!"bad reg op {k}"
@@ -165,6 +167,7 @@ def ROpTok.toOp : ROpTok → Option RegOp
   | .info => none
   | .rebind => none
   | .openfailed => none
+  | .rebindaccepted => none
   | .desc _ => none
 
 def regResStr : RegResult → String
@@ -217,6 +220,9 @@ def cmdReg : P String := do
           | .invalidParameter p => k == "invalid" && t == p
         let (sf, es, obs, bad) ← walk s os
         pure (sf, es, obs, if good then bad else some "description-in-mid-history-differs")
+      | .rebindaccepted =>
+        let (sf, es, obs, _) ← walk s os
+        pure (sf, es, obs, some "second-bind-during-serving-was-accepted")
       | .openfailed =>
         let (sf, es, obs, _) ← walk s os
         pure (sf, es, obs, some "connection-refused-while-the-history-has-the-service-serving")
